@@ -162,6 +162,9 @@ class Check(PropertyCheck):
                 for stale in ("timeout", "cancelled"):
                     for fr in (good, good + b"\x00\x01", inv, other, good[:-1]):
                         cases.append({"v": v, "pending": pname, "stale": stale, "data": fr.hex(), "kind": "late"})
+                    # ... and the caller has retried the command meanwhile (pending under the next number) when the late reply
+                    # to the first attempt arrives under the old number: a frame carrying another sequence number completes nothing
+                    cases.append({"v": v, "pending": pname, "stale": stale, "retry": True, "data": good.hex(), "kind": "late"})
             # an EARLIER handler object (the one replaced at the last reset / version switch) was left with commands that had
             # timed out under the numbers 0..3: the handler in use has nothing outstanding, proper frames carrying those
             # numbers are callbacks for it (or answer its own pending command under number 0)
@@ -249,12 +252,25 @@ class Check(PropertyCheck):
             elif case.get("stale") == "cancelled":
                 task.cancel()
                 b.loop.settle()
+        retry = None
+        if case.get("retry"):
+            retry = b.loop.create_task(caller("r", case["pending"]))
+            b.loop.settle()          # registered under the next sequence number
         try:
             ez.frame_received(bytes.fromhex(case["data"]))
         except BaseException as e:  # noqa
             out["raised"] = repr(e)
         b.loop.settle()
         out["first"] = {"p": res.get("p"), "cbs": [list(x) for x in log], "awaiting": len(proto._awaiting)}
+        if retry is not None:
+            out["first"]["retry"] = res.get("r")
+            if not retry.done():
+                ez.frame_received(valid_frame(proto, case["pending"], 1, rng, "lo"))
+                b.loop.settle()
+            out["first"]["retry_after_own_reply"] = res.get("r")
+            if not retry.done():
+                retry.cancel()
+                b.loop.settle()
         # afterwards: the pending call (if still pending) gets its proper reply; then a fresh command works
         del log[:]
         try:
@@ -319,6 +335,12 @@ class Check(PropertyCheck):
         if a["n"] is None or a["n"][0] != "ret":
             return f"a command issued after the frame did not complete normally: {a['n']}"
         f = obs["first"]
+        if case.get("retry"):
+            if f.get("retry") is not None:
+                return (f"the late reply to the first attempt (sequence number 0) completed the retried {case['pending']} pending under "
+                        f"sequence number 1: {f['retry']}")
+            if f.get("retry_after_own_reply") is None or f["retry_after_own_reply"][0] != "ret":
+                return f"the retried {case['pending']} was not completed by its own reply: {f.get('retry_after_own_reply')}"
         if case.get("stale"):
             if f["p"] is not None and f["p"][0] == "ret":
                 return "a command that had timed out / been cancelled returned a value"
